@@ -68,6 +68,20 @@ CLAIMS = {
         "bookkeeping keys. Emitted coordinates under solver outcomes are covered only through this structural argument; whether draftsman accepts a property is not decided.",
    technique="def-use slices + guard-chain analysis + call-graph reachability with a unit typestate + who-may-delete table",
    ref="DESIGN.md §2 C09"),
+ "C08": dict(
+   text="Static analysis with the game-data tables as oracle: every CP-SAT invocation is dominated (CFG) by the posting of AddNoOverlap2D over intervals for all entity ids built from ceiled "
+        "footprints; every literal (prototype, footprint) pair and the pole table cover the prototype's collision box; every wire-span default is within the reach of every emitted entity type "
+        "and of every prototype that can become a relay node; the router answers 'no relay' only within the limit and re-checks each hop; wires are materialised only between existing entities "
+        "with one colour. NOT decided: wire reach and overlap under every layout outcome (span limits are soft in the solver, explicit memory/latch wires bypass routing, the fallback grid "
+        "ignores fixed entities when placing the rest) — these depend on CP-SAT's answer.",
+   technique="CFG dominance + constant tables checked against draftsman prototype data + guard-chain analysis",
+   ref="DESIGN.md §2 C08"),
+ "C18": dict(
+   text="Static analysis with the game-data tables as oracle: POWER_POLE_CONFIG rows vs prototype data (supply area, copper reach, collision box); grid step expression <= 2 x radius in both axes and "
+        "first-pole offset; option gating by CFG dominance and value flow from both CLIs; pole creators enumerated; copper connection guarded by the reach of both poles; trim decisions guarded by "
+        "the grid-pole flag and the coverage test. NOT decided: coverage of every consumer for a given layout, single electric network, behaviour unchanged by poles.",
+   technique="constant tables vs draftsman prototype data + CFG dominance + guard-chain analysis + value-flow through the pipelines",
+   ref="DESIGN.md §2 C18"),
 }
 NA_DEFAULT = "check not built yet (build phase in progress); see DESIGN.md for the planned rules"
 NA = {}
